@@ -23,6 +23,20 @@ def combos(values: list, map_over: list[str], mode: str) -> list[dict] | None:
     return [{**bcast, **dict(zip(map_over, c))} for c in itertools.product(*lists)]
 
 
+def data_exposed(program: list[dict], gi: int) -> list[str]:
+    """Names a graph exposes that some node inside produces as DATA (ordering signals are not data), under the graph's own names."""
+    g = program[gi]
+    data: list[str] = []
+    for n in g["nodes"]:
+        if n["kind"] == "graph":
+            ren = dict(n.get("outRen", []))
+            data += [ren.get(o, o) for o in data_exposed(program, n["inner"])]
+        else:
+            data += list(n.get("dataOuts", []))
+    exposed = g["selected"] if g.get("selected") is not None else data
+    return [o for o in dict.fromkeys(exposed) if o in data]
+
+
 class C10(Prop):
     id = "C10"
     level = "proof"
@@ -88,6 +102,13 @@ class C10(Prop):
             outer = {"name": "g1", "nodes": [gn], "bound": []}
             yield {"kind": "node", "program": [inner, outer], "values": [["x", {"l": [rng.randint(0, 4) for _ in range(rng.randint(2, 3))]}]], "cfg": {},
                    "runner": runner, "k": None, "seed": rng.randint(0, 10**6)}
+        # whatever the seed: the mapped graph NESTS a graph whose function emits a signal: the signal is no output list of the mapping node
+        for runner in ("sync", "async"):
+            g0 = {"name": "sub", "nodes": [gen._fn_node("a", [["x", None]], ["y"], {"b": "tag", "t": "a"}, emits=["done"])], "bound": []}
+            g1 = {"name": "mid", "nodes": [{"name": "sub", "kind": "graph", "inner": 0}, gen._fn_node("b", [["y", None]], ["z"], {"b": "tag", "t": "b"})], "bound": []}
+            gn = {"name": "mapper", "kind": "graph", "inner": 1, "inRen": [], "outRen": [], "mapOver": ["x"], "mapMode": "zip", "errMode": rng.choice(["raise", "continue"])}
+            yield {"kind": "node", "program": [g0, g1, {"name": "g2", "nodes": [gn], "bound": []}], "values": [["x", {"l": [rng.randint(0, 4) for _ in range(rng.randint(1, 3))]}]],
+                   "cfg": {}, "runner": runner, "k": None, "seed": rng.randint(0, 10**6)}
         # whatever the seed: a concurrency limit without a single slot — refused, or else one result per combination all the same
         for _ in range(2):
             c = self._map_case(rng, bounded=True)
@@ -160,7 +181,9 @@ class C10(Prop):
         cs = combos(vals, mo, node["mapMode"])
         if cs is None:
             return None if obs["status"] == "failed" and obs["error"] == "ValueError" else f"zip over unequal lengths: {obs['status']}/{obs['error']}"
-        singles = [impl.run_case([case["program"][0]], None, [[k, v] for k, v in c.items()], {"errMode": "continue"}, "sync") for c in cs]
+        gi_m = node["inner"]
+        mapped_prog = case["program"][: gi_m + 1]      # the mapped graph with whatever it nests
+        singles = [impl.run_case(mapped_prog, None, [[k, v] for k, v in c.items()], {"errMode": "continue"}, "sync") for c in cs]
         fails = [i for i, s in enumerate(singles) if s["status"] == "failed"]
         if fails and node["errMode"] == "raise":
             if obs["status"] != "failed" or obs["error"] != singles[fails[0]]["error"]:
@@ -172,8 +195,16 @@ class C10(Prop):
             return f"mapping node run ended {obs['status']}/{obs['error']}"
         got = dict((k, v) for k, v in obs["values"])
         ren = dict(node.get("outRen", []))
-        inner_outs = [o for n in case["program"][0]["nodes"] for o in n.get("dataOuts", [])]
-        inner_sel = case["program"][0].get("selected")
+        inner_outs = [o for n in case["program"][gi_m]["nodes"] for o in n.get("dataOuts", [])]
+        # nothing but what single runs return: a name no single run of the mapped graph ever returns (an ordering signal of a graph nested
+        # inside it, say) is not an output list of the mapping node
+        allowed = {ren.get(o, o) for o in data_exposed(case["program"], gi_m)}
+        others = {o for n in case["program"][-1]["nodes"] if n is not node for o in n.get("dataOuts", [])}
+        for k, v in got.items():
+            if k not in allowed and k not in others:
+                return (f"the mapping node returns {k!r} = {v!r}, which is no DATA output the mapped graph exposes (its exposed data outputs: {sorted(allowed)}); "
+                        "no single run of the mapped graph returns such a value")
+        inner_sel = case["program"][gi_m].get("selected")
         run_sel = case["cfg"].get("select")
         top_sel = case["program"][-1].get("selected")
         for o in dict.fromkeys(inner_outs):
